@@ -1,6 +1,27 @@
 /-
-  C15, second part — the core clause of the property at β level, on ARBITRARY well-formed 2-maps.
-  (header completed at the end of the file's development; see the theorem docstrings)
+  C15, second part — the core clause of the property at β level, on ARBITRARY well-formed 2-maps (not only grids).
+
+  Method: a successful sew / unsew is its link core up to `SameTopo` (Lemmas/RemeshBeta.lean), so the β FUNCTION after a
+  straight-line kernel is a closed `upd`-chain on the initial one (`Eff`); it is evaluated at the named darts by `simp`
+  from their pairwise distinctness.  Cells come from C03's orbit theorems (Lemmas/RemeshCells.lean).
+
+  PROVED
+  (1) local topology: `C15_swap_topology` (+ `C15_swap_faces_are_triangles`), `C15_cutOuter_topology`,
+      `C15_cutInner_topology` — the twelve (resp. twelve, twenty-four) β0/β1 images of the new triangles, the β2 pairings,
+      the frame (every other image of every other dart unchanged), `n` and the flags unchanged.
+  (2) cells after `cut_outer_edge`: `C15_cutOuter_cells` — identifiers of the two new faces, every other face keeps its
+      dart set and identifier, `iter_faces` before/after (one face replaced by two), the new vertex is `{nd1, nd3}` with
+      identifier `min(nd1, nd3)`; `C15_cut_midpoint_in_final_map` — the midpoint sits at that identifier in the FINAL map,
+      any numbering of the spare darts (boundary dart, no fault injected).
+  (3) collapse: `C15_collapse_midpoint_interior` — for `collapse_edge` ITSELF (no assertion), without VertexAnchor storage,
+      interior configuration: the two side conditions of `C15_collapse_preserves_WF` are discharged (no null dart sewn,
+      every flagged dart free): the result is well formed; exactly the six darts are flagged and free; the neighbours are
+      re-glued pairwise; frame.
+
+  NOT PROVED here: the end-point (anchor-driven) variant of collapse and the boundary configurations (D15e lives there:
+  nothing is flagged, so the side condition on flagged darts is vacuous and the map stays well formed — the defect is that
+  the result is not a triangle mesh); vertex / edge counts; the final-map midpoint for `cut_inner_edge` (same method, four
+  darts in the new vertex); `iter_faces` for swap and the inner cut (same method).
 -/
 import Honeycomb.Lemmas.RemeshBeta
 import Honeycomb.Lemmas.RemeshCells
@@ -1102,5 +1123,256 @@ theorem trj_halfMid (cfg : Cfg Val) {b0d d b1d : Nat} (h0 : b0d ≠ 0 → Live n
   exact ⟨trivial, trivial, trivial, trivial, trivial, hf, trivial, trivial, trivial, trivial⟩
 
 end
+
+/-- β function after `collapse_edge_to_midpoint` on an interior edge: `(b, l, a)` and `(d, r, c)` are the two half cells -/
+def midF (l r a b c d : Nat) (f : BF) : BF := halfMidF b l a (halfMidF d r c (unl2 f r))
+def midPre (l r a b c d : Nat) (f : BF) : Prop :=
+  halfMidPre d r c (unl2 f r) ∧ halfMidPre b l a (halfMidF d r c (unl2 f r))
+def midU (l r a b c d : Nat) (w : Array Bool) : Array Bool := halfMidU b l a (halfMidU d r c w)
+
+set_option maxHeartbeats 1600000 in
+/-- pure evaluation: two β1-triangles `l → a → b → l`, `r → c → d → r` glued along `l | r`, whose four other sides are
+    glued to `xa, xb, xc, xd` (all ten darts pairwise distinct) -/
+theorem collapseMid_chain_eval (f : BF) (l r a b c d xa xb xc xd : Nat)
+    (hd : [l, r, a, b, c, d, xa, xb, xc, xd].Nodup) (x0 : xa ≠ 0 ∧ xb ≠ 0 ∧ xc ≠ 0 ∧ xd ≠ 0)
+    (k1 : f 2 l = r) (k2 : f 2 r = l) (ka : f 2 a = xa) (kb : f 2 b = xb) (kc : f 2 c = xc) (kd : f 2 d = xd)
+    (h1 : f 1 l = a) (h2 : f 1 a = b) (h3 : f 1 b = l) (h4 : f 1 r = c) (h5 : f 1 c = d) (h6 : f 1 d = r)
+    (g1 : f 0 a = l) (g2 : f 0 b = a) (g3 : f 0 l = b) (g4 : f 0 c = r) (g5 : f 0 d = c) (g6 : f 0 r = d) :
+    midPre l r a b c d f ∧
+    ((midF l r a b c d f 0 l = 0 ∧ midF l r a b c d f 1 l = 0 ∧ midF l r a b c d f 2 l = 0) ∧
+     (midF l r a b c d f 0 r = 0 ∧ midF l r a b c d f 1 r = 0 ∧ midF l r a b c d f 2 r = 0) ∧
+     (midF l r a b c d f 0 a = 0 ∧ midF l r a b c d f 1 a = 0 ∧ midF l r a b c d f 2 a = 0) ∧
+     (midF l r a b c d f 0 b = 0 ∧ midF l r a b c d f 1 b = 0 ∧ midF l r a b c d f 2 b = 0) ∧
+     (midF l r a b c d f 0 c = 0 ∧ midF l r a b c d f 1 c = 0 ∧ midF l r a b c d f 2 c = 0) ∧
+     (midF l r a b c d f 0 d = 0 ∧ midF l r a b c d f 1 d = 0 ∧ midF l r a b c d f 2 d = 0)) ∧
+    (midF l r a b c d f 2 xb = xa ∧ midF l r a b c d f 2 xa = xb ∧ midF l r a b c d f 2 xd = xc ∧
+      midF l r a b c d f 2 xc = xd) ∧
+    (∀ i x, x ∉ [l, r, a, b, c, d, xa, xb, xc, xd] → midF l r a b c d f i x = f i x) ∧
+    (∀ x, x ∉ [l, r, a, b, c, d] → midF l r a b c d f 0 x = f 0 x ∧ midF l r a b c d f 1 x = f 1 x) := by
+  simp only [List.nodup_cons, List.mem_cons, List.mem_nil_iff, not_or, or_false, List.nodup_nil, and_true] at hd
+  obtain ⟨xa0, xb0, xc0, xd0⟩ := x0
+  refine ⟨⟨⟨?_, ?_, ?_⟩, ⟨?_, ?_, ?_⟩⟩, ⟨⟨?_, ?_, ?_⟩, ⟨?_, ?_, ?_⟩, ⟨?_, ?_, ?_⟩, ⟨?_, ?_, ?_⟩, ⟨?_, ?_, ?_⟩, ⟨?_, ?_, ?_⟩⟩,
+    ⟨?_, ?_, ?_, ?_⟩, ?_, ?_⟩
+  all_goals try (simp only [midPre, halfMidPre, midF, halfMidF, halfG, lnk1, lnk2, unl1, unl2, upd_apply, h1, h2, h3, h4, h5, h6, g1, g2, g3, g4, g5, g6, k1, k2, ka, kb, kc, kd]; simp [*, eq_comm]; done)
+  · intro i x hx
+    simp only [List.mem_cons, List.mem_nil_iff, not_or, or_false] at hx
+    have hx' := hx
+    simp only [@eq_comm _ x] at hx'
+    simp only [midF, halfMidF, halfG, lnk1, lnk2, unl1, unl2, upd_apply, h1, h2, h3, h4, h5, h6, g1, g2, g3, g4, g5, g6, k1, k2, ka, kb, kc, kd]
+    simp [*, eq_comm]
+  · intro x hx
+    simp only [List.mem_cons, List.mem_nil_iff, not_or, or_false] at hx
+    have hx' := hx
+    simp only [@eq_comm _ x] at hx'
+    constructor <;> (simp only [midF, halfMidF, halfG, lnk1, lnk2, unl1, unl2, upd_apply, h1, h2, h3, h4, h5, h6, g1, g2, g3, g4, g5, g6, k1, k2, ka, kb, kc, kd]; simp [*, eq_comm])
+
+section
+variable {n : Nat} {u : Array Bool}
+
+theorem collapseEdgeToMidpoint_interior (cfg : Cfg Val) (k b0l l b1l b0r r b1r : Nat) (hr : r ≠ 0) :
+    collapseEdgeToMidpoint cfg k b0l l b1l b0r r b1r = (do
+      twoUnsew2 cfg k r
+      collapseHalfMid cfg k b0r r b1r
+      let b2b0l ← rB 2 b0l
+      collapseHalfMid cfg k b0l l b1l
+      collapsedVid k b2b0l r b1r) := by
+  unfold collapseEdgeToMidpoint
+  simp only [hr, ne_eq, not_false_eq_true, if_true]
+
+theorem trj_midpoint (cfg : Cfg Val) {b0l l b1l b0r r b1r : Nat} (hr0 : r ≠ 0)
+    (h0l : b0l ≠ 0 → Live n u b0l) (hl : l ≠ 0 → Live n u l) (h1l : b1l ≠ 0 → Live n u b1l)
+    (h0r : b0r ≠ 0 → Live n u b0r) (hr : r ≠ 0 → Live n u r) (h1r : b1r ≠ 0 → Live n u b1r) :
+    TrJ n u (collapseEdgeToMidpoint cfg n b0l l b1l b0r r b1r) (midPre l r b1l b0l b1r b0r) (midF l r b1l b0l b1r b0r)
+      (fun _ w => midU l r b1l b0l b1r b0r w) := by
+  rw [collapseEdgeToMidpoint_interior cfg n b0l l b1l b0r r b1r hr0]
+  have key :=
+    TrJ.bind (TrJ.twoUnsew2 cfg hr) fun _ =>
+    TrJ.bind (trj_halfMid cfg h0r hr h1r) fun _ =>
+    TrJ.rB_bind (n := n) (u := u) (i := 2) (d := b0l) fun x _ =>
+    TrJ.bind (trj_halfMid cfg h0l hl h1l) fun _ =>
+    TrJ.ro (n := n) (u := u) (ro_collapsedVid n x r b1r)
+  refine key.conv ?_ (fun f => rfl) (fun f w => rfl)
+  intro f hf
+  exact ⟨trivial, hf.1, hf.2, trivial⟩
+
+end
+
+theorem isCollapsible_noanchors (cfg : Cfg Val) (k e : Nat) (hreg : regd cfg stVA = false) :
+    isCollapsible cfg k e = pure .average := by
+  unfold isCollapsible
+  simp [hreg]
+
+theorem rd_wr_true {w : Array Bool} {i j : Nat} (h : rd (wr w i true) j = true) : i = j ∨ rd w j = true := by
+  rw [rd_wr] at h
+  by_cases c : i = j ∧ i < w.size
+  · exact Or.inl c.1
+  · simp [c] at h; exact Or.inr h
+
+/-- **C15 (3), collapse to the midpoint, interior configuration — the side conditions of `C15_collapse_preserves_WF`
+    discharged**: on ANY well-formed 2-map without VertexAnchor storage (the kernel then always collapses to the
+    midpoint), whenever `collapse_edge(e)` itself (no assertion added) succeeds on an interior edge whose two faces are
+    closed and whose four other sides are interior too, the ten darts `e, r, a, b, c, d` (the two triangles) and
+    `xa = β2 a, xb = β2 b, xc = β2 c, xd = β2 d` (their neighbours) being pairwise distinct, then
+    * no sew was handed a null dart (`midPre`, needed to obtain the invariant) and every flagged dart is free: the
+      resulting map is WELL FORMED, unconditionally;
+    * exactly the six darts of the two triangles are flagged, all their β images are null;
+    * the neighbours are re-glued pairwise, `xb | xa` and `xd | xc`; every other image of every other dart and every
+      other flag is unchanged.
+    (That the two faces are triangles is the kernel's BadTopology guard; that the four sides are interior is implied by
+    the success of the kernel's 2-unsews — here taken as hypotheses on the input map.) -/
+theorem C15_collapse_midpoint_interior (cfg : Cfg Val) (m m' : Map Val) (e v : Nat) (hwf : WF 3 m) (he : C01.InUse m e)
+    (hreg : regd cfg stVA = false)
+    (h : run (collapseEdge cfg m.n e) m = (.ok v, m'))
+    (hr0 : m.β 2 e ≠ 0) (hb : m.β 0 e ≠ 0) (hd : m.β 0 (m.β 2 e) ≠ 0)
+    (hx : m.β 2 (m.β 1 e) ≠ 0 ∧ m.β 2 (m.β 0 e) ≠ 0 ∧ m.β 2 (m.β 1 (m.β 2 e)) ≠ 0 ∧ m.β 2 (m.β 0 (m.β 2 e)) ≠ 0)
+    (hnd : [e, m.β 2 e, m.β 1 e, m.β 0 e, m.β 1 (m.β 2 e), m.β 0 (m.β 2 e), m.β 2 (m.β 1 e), m.β 2 (m.β 0 e),
+      m.β 2 (m.β 1 (m.β 2 e)), m.β 2 (m.β 0 (m.β 2 e))].Nodup) :
+    WF 3 m' ∧
+    (∀ x, x ∈ [e, m.β 2 e, m.β 1 e, m.β 0 e, m.β 1 (m.β 2 e), m.β 0 (m.β 2 e)] →
+      m'.unused x = true ∧ ∀ i, i < 3 → m'.β i x = 0) ∧
+    (m'.β 2 (m.β 2 (m.β 0 e)) = m.β 2 (m.β 1 e) ∧ m'.β 2 (m.β 2 (m.β 1 e)) = m.β 2 (m.β 0 e) ∧
+     m'.β 2 (m.β 2 (m.β 0 (m.β 2 e))) = m.β 2 (m.β 1 (m.β 2 e)) ∧
+     m'.β 2 (m.β 2 (m.β 1 (m.β 2 e))) = m.β 2 (m.β 0 (m.β 2 e))) ∧
+    (∀ i x, x ∉ [e, m.β 2 e, m.β 1 e, m.β 0 e, m.β 1 (m.β 2 e), m.β 0 (m.β 2 e), m.β 2 (m.β 1 e), m.β 2 (m.β 0 e),
+      m.β 2 (m.β 1 (m.β 2 e)), m.β 2 (m.β 0 (m.β 2 e))] → m'.β i x = m.β i x) ∧
+    (∀ x, x ∉ [e, m.β 2 e, m.β 1 e, m.β 0 e, m.β 1 (m.β 2 e), m.β 0 (m.β 2 e)] → m'.unused x = true → m.unused x = true) := by
+  have hn := he.2.1
+  rw [C15_collapse_guards cfg m.n e m (fun i d hi hd => (hwf.toSized.okβ i d).2 ⟨hi, hd⟩)
+    (fun i d hi hd => hwf.range i hi d hd) hn] at h
+  simp only [he.1, if_false] at h
+  by_cases gl : m.β 1 (m.β 1 e) = m.β 0 e
+  swap
+  · simp [gl] at h
+  simp only [gl, ne_eq, not_true_eq_false, if_false] at h
+  by_cases gr : m.β 1 (m.β 1 (m.β 2 e)) = m.β 0 (m.β 2 e)
+  swap
+  · simp [gr, hr0] at h
+  simp only [gr, not_true_eq_false, and_false, if_false] at h
+  have hr : m.β 2 e < m.n := hwf.range 2 (by omega) e hn
+  have a0 : m.β 1 e ≠ 0 := fun hh => hb (by rw [← gl, hh]; exact hwf.null 1 (by omega))
+  have c0 : m.β 1 (m.β 2 e) ≠ 0 := fun hh => hd (by rw [← gr, hh]; exact hwf.null 1 (by omega))
+  have ha : m.β 1 e < m.n := hwf.range 1 (by omega) e hn
+  have hc : m.β 1 (m.β 2 e) < m.n := hwf.range 1 (by omega) _ hr
+  have Le : Live m.n m.u e := Live.of_inUse he
+  have Lr := live_image hwf (by omega : 2 < 3) hn hr0
+  have La := live_image hwf (by omega : 1 < 3) hn a0
+  have Lb := live_image hwf (by omega : 0 < 3) hn hb
+  have Lc := live_image hwf (by omega : 1 < 3) hr c0
+  have Ld := live_image hwf (by omega : 0 < 3) hr hd
+  -- the body: no anchors ⇒ midpoint
+  unfold collapseBodyG at h
+  rw [isCollapsible_noanchors _ _ _ hreg] at h
+  simp only [Prog.pure_eq, Prog.bind_eq, bind, Prog.ret_bind] at h
+  have eqk : edgeToMidpointG (fun _ => Prog.ret ()) cfg m.n (m.β 0 e) e (m.β 1 e) (m.β 0 (m.β 2 e)) (m.β 2 e)
+      (m.β 1 (m.β 2 e)) = collapseEdgeToMidpoint cfg m.n (m.β 0 e) e (m.β 1 e) (m.β 0 (m.β 2 e)) (m.β 2 e)
+      (m.β 1 (m.β 2 e)) := rfl
+  rw [eqk] at h
+  obtain ⟨vid, m1, r1, h2⟩ := run_bind_ok h
+  obtain ⟨ok, _, h3⟩ := ro_bind_ok (ro_isOrbitOrientationConsistent _ _) h2
+  have em : m' = m1 := by
+    cases ok
+    · simp at h3
+    · simp at h3; exact h3.2.symm
+  subst em
+  -- symbolic execution
+  have ev := collapseMid_chain_eval m.β e (m.β 2 e) (m.β 1 e) (m.β 0 e) (m.β 1 (m.β 2 e)) (m.β 0 (m.β 2 e))
+    (m.β 2 (m.β 1 e)) (m.β 2 (m.β 0 e)) (m.β 2 (m.β 1 (m.β 2 e))) (m.β 2 (m.β 0 (m.β 2 e))) hnd hx
+    rfl (hwf.invol 2 (by omega) (by omega) e hn hr0).1 rfl rfl rfl rfl
+    rfl gl (hwf.inv10 e hn hb) rfl gr (hwf.inv10 _ hr hd)
+    (hwf.inv01 e hn a0) (by rw [← gl]; exact hwf.inv01 _ ha (by rw [gl]; exact hb)) rfl
+    (hwf.inv01 _ hr c0) (by rw [← gr]; exact hwf.inv01 _ hc (by rw [gr]; exact hd)) rfl
+  obtain ⟨pre, ⟨ze, zr, za, zb, zc, zd⟩, glue, frame, _⟩ := ev
+  have J0 : InvJ m.n m.u m := ⟨hwf, rfl, hwf.usz⟩
+  obtain ⟨J, hβ, hu⟩ := trj_midpoint (n := m.n) (u := m.u) cfg hr0 (fun _ => Lb) (fun _ => Le) (fun _ => La)
+    (fun _ => Ld) (fun _ => Lr) (fun _ => Lc) m m' vid J0 pre r1
+  -- flags
+  have flagged : ∀ x, m'.unused x = true →
+      x ∈ [e, m.β 2 e, m.β 1 e, m.β 0 e, m.β 1 (m.β 2 e), m.β 0 (m.β 2 e)] ∨ m.unused x = true := by
+    intro x hxu
+    unfold Map.unused at hxu ⊢
+    rw [hu] at hxu
+    simp only [midU, halfMidU] at hxu
+    rcases rd_wr_true hxu with rfl | hxu
+    · simp
+    rcases rd_wr_true hxu with rfl | hxu
+    · simp
+    rcases rd_wr_true hxu with rfl | hxu
+    · simp
+    rcases rd_wr_true hxu with rfl | hxu
+    · simp
+    rcases rd_wr_true hxu with rfl | hxu
+    · simp
+    rcases rd_wr_true hxu with rfl | hxu
+    · simp
+    exact Or.inr hxu
+  have zero : ∀ x, x ∈ [e, m.β 2 e, m.β 1 e, m.β 0 e, m.β 1 (m.β 2 e), m.β 0 (m.β 2 e)] → ∀ i, i < 3 → m'.β i x = 0 := by
+    intro x hx i hi
+    rw [hβ]
+    simp only [List.mem_cons, List.mem_nil_iff, or_false] at hx
+    have i3 : i = 0 ∨ i = 1 ∨ i = 2 := by omega
+    rcases hx with rfl | rfl | rfl | rfl | rfl | rfl <;> rcases i3 with rfl | rfl | rfl
+    · exact ze.1
+    · exact ze.2.1
+    · exact ze.2.2
+    · exact zr.1
+    · exact zr.2.1
+    · exact zr.2.2
+    · exact za.1
+    · exact za.2.1
+    · exact za.2.2
+    · exact zb.1
+    · exact zb.2.1
+    · exact zb.2.2
+    · exact zc.1
+    · exact zc.2.1
+    · exact zc.2.2
+    · exact zd.1
+    · exact zd.2.1
+    · exact zd.2.2
+  have w := J.wf
+  have hwf' : WF 3 m' := by
+    refine ⟨⟨w.npos, w.rows, w.row, ?_, w.asz⟩, ⟨w.null, w.range, w.inv01, w.inv10, w.invol, ?_⟩⟩
+    · rw [J.usz]; exact J.n_eq.symm
+    · intro x hxn hxu i hi
+      rcases flagged x hxu with hm | hm
+      · exact zero x hm i hi
+      · exact w.unusedFree x hxn hm i hi
+  -- which darts are flagged
+  have setf : ∀ x, x ∈ [e, m.β 2 e, m.β 1 e, m.β 0 e, m.β 1 (m.β 2 e), m.β 0 (m.β 2 e)] → m'.unused x = true := by
+    intro x hx
+    have hxn : x < m.u.size := by
+      rw [hwf.usz]
+      simp only [List.mem_cons, List.mem_nil_iff, or_false] at hx
+      rcases hx with rfl | rfl | rfl | rfl | rfl | rfl
+      · exact hn
+      · exact hr
+      · exact ha
+      · exact Lb.2.1
+      · exact hc
+      · exact Ld.2.1
+    unfold Map.unused
+    rw [hu]
+    simp only [midU, halfMidU, rd_wr, size_wr]
+    simp only [List.mem_cons, List.mem_nil_iff, or_false] at hx
+    rcases hx with rfl | rfl | rfl | rfl | rfl | rfl <;> simp [hxn]
+  refine ⟨hwf', fun x hx => ⟨setf x hx, zero x hx⟩, ?_, ?_, ?_⟩
+  · rw [hβ]; exact glue
+  · intro i x hx; rw [hβ]; exact frame i x hx
+  · intro x hx hxu
+    rcases flagged x hxu with hm | hm
+    · exact absurd hm hx
+    · exact hm
+
+/-- the hypotheses of `C15_collapse_midpoint_interior` hold for `collapse_edge(26)` on the 2 x 2 grid after one inner
+    cut (`cutGrid`, the mesh of finding D15d: the position of the resulting vertex is wrong there, the topology is not) -/
+example : ∃ m', run (collapseEdge (stdCfg 3 0) cutGrid.n 26) cutGrid = (.ok 3, m') ∧ WF 3 cutGrid ∧ C01.InUse cutGrid 26 ∧
+    regd (stdCfg 3 0) stVA = false ∧ cutGrid.β 2 26 ≠ 0 ∧ cutGrid.β 0 26 ≠ 0 ∧ cutGrid.β 0 (cutGrid.β 2 26) ≠ 0 ∧
+    (cutGrid.β 2 (cutGrid.β 1 26) ≠ 0 ∧ cutGrid.β 2 (cutGrid.β 0 26) ≠ 0 ∧ cutGrid.β 2 (cutGrid.β 1 (cutGrid.β 2 26)) ≠ 0 ∧
+      cutGrid.β 2 (cutGrid.β 0 (cutGrid.β 2 26)) ≠ 0) ∧
+    [26, cutGrid.β 2 26, cutGrid.β 1 26, cutGrid.β 0 26, cutGrid.β 1 (cutGrid.β 2 26), cutGrid.β 0 (cutGrid.β 2 26),
+      cutGrid.β 2 (cutGrid.β 1 26), cutGrid.β 2 (cutGrid.β 0 26), cutGrid.β 2 (cutGrid.β 1 (cutGrid.β 2 26)),
+      cutGrid.β 2 (cutGrid.β 0 (cutGrid.β 2 26))].Nodup :=
+  ⟨_, run_eq_of_fst (by decide +kernel), by decide +kernel, by decide +kernel, by decide +kernel, by decide +kernel,
+    by decide +kernel, by decide +kernel, by decide +kernel, by decide +kernel⟩
 
 end HC.C15
